@@ -140,6 +140,8 @@ def make_source(case, d):
         kw.update(patch_num=2, probe_size=20)
     src = case["source"]
     df = pd.DataFrame(cols)
+    if n % 2:  # odd lengths: a frame that kept the row labels of a larger parent (df[mask]); labels != positions
+        df.index = np.arange(n)[::-1] * 2 + 3
     if src == "frame":
         return (lambda path, **k: Catalog.from_dataframe(path, df, **dict(kw, **k))), cols
     if src == "fits":
@@ -425,3 +427,23 @@ def run_case(case):
     if case["part"] == "seq":
         return run_seq(case)
     return run_par(case)
+
+
+def finish(ctx):
+    """Conformance of the virtual pipeline: the same scenarios run free on the real multiprocessing module."""
+    import json
+    import subprocess
+    import sys
+
+    script = os.path.join(os.path.dirname(os.path.dirname(os.path.abspath(__file__))), "vlib", "realmp_conf.py")
+    p = subprocess.run([sys.executable, script, "c02", str(ctx["seed"])], capture_output=True, text=True)
+    try:
+        rep = json.loads(p.stdout.strip().splitlines()[-1])
+    except Exception:
+        ctx["errors"].append(dict(case="realmp conformance", trace=p.stdout[-2000:] + p.stderr[-2000:]))
+        return dict(conformance_runs=0)
+    if rep["mismatches"] and not ctx["found"]:
+        ctx["errors"].append(dict(case="realmp conformance",
+                                  trace="the real multiprocessing pipeline behaves differently from what the virtual "
+                                        f"exploration found: {rep['mismatches']}"))
+    return dict(conformance_runs=rep["runs"], conformance_mismatches=len(rep["mismatches"]))
